@@ -75,3 +75,28 @@ Proof.
   split; [reflexivity|].
   cbn [length]. pose proof (firstn_le_length 123 reason). lia.
 Qed.
+
+(* a close caused by an error: the status the error class maps to (never 0, so two bytes), then the error text, at most
+   125 bytes in all - whatever the length of the text *)
+Theorem error_close_correct reading e text :
+  let st := emit_error_status reading e in
+  0 < st < 2 ^ 16 ->
+  error_close_body reading e text = error_close_spec st text /\ (length (error_close_body reading e text) <= 125)%nat.
+Proof.
+  intros st Hst. unfold error_close_body, error_close_spec, truncate_body. fold st.
+  change (Z.to_nat internal_ThresholdV1) with 125%nat.
+  rewrite (status_bytes_be16 st) by lia. unfold be16. cbn [app].
+  change (firstn 125 (st / 256 :: st mod 256 :: text)) with (st / 256 :: st mod 256 :: firstn 123 text).
+  split; [reflexivity|].
+  cbn [length]. pose proof (firstn_le_length 123 text). lia.
+Qed.
+
+(* the statuses emitError can choose for the errors gws itself raises are all in range *)
+Lemma emit_error_status_range reading e :
+  (match e with EStatus c | ECoded c => 0 < c < 2 ^ 16 | EOther => True end) ->
+  0 < emit_error_status reading e < 2 ^ 16.
+Proof.
+  intro H. unfold emit_error_status. destruct reading.
+  - destruct e; try exact H. vm_compute. split; reflexivity.
+  - vm_compute. split; reflexivity.
+Qed.
